@@ -192,3 +192,8 @@ package scheduler
 //@   effect no may-block before Run
 //@   callsite Schedule
 //@     assume stage.Status == old(stage.Status) // a stage is not a node of the pipeline it includes (see known finding: pipeline inclusion cycles)
+
+//@ func NewExecutionGraph
+//@   nomod
+//@   ensures result#1 == nil ==> result != nil && fresh(result) && wfG(result)
+//@   ensures result#1 == nil && len(stages) == 0 ==> (forall n string :: !(n in result.nodes) && len(result.to[n]) == 0)
